@@ -109,6 +109,11 @@ func analyzeC01(tr *muxTrace) string {
 	for pid, want := range exp {
 		g := got[pid]
 		gi := 0
+		if want[0].step.streamGen != want[len(want)-1].step.streamGen {
+			// the PID was removed and added again (possible through automatic assignment even when explicit re-adds are
+			// avoided): its continuity counter restarted, units next to the boundary may be lost or glued (see C05's scope)
+			continue
+		}
 		for _, w := range want {
 			s := w.step
 			if gi >= len(g) || g[gi].PES == nil || !bytes.Equal(g[gi].PES.Data, s.pes.Payload) {
